@@ -497,6 +497,13 @@ type c03Gen struct {
 
 func (g *c03Gen) c(op string) { g.st.Emit(op, "-") }
 
+// tuning constants the property does not fix are model PARAMETERS: read from the code, handed to the model
+func (g *c03Gen) cfg() {
+	g.c(fmt.Sprintf("cfg %d %d %d %d %d %d %d", UdpRoutingResultCacheTtl.Nanoseconds(), tcpRoutingLookupRetryAttempts,
+		tcpRoutingLookupRetryDelay.Nanoseconds(), connStateJanitorPressureEnterUsage, connStateJanitorPressureExitUsage,
+		connStateJanitorPressureExitRounds, c03SoMarkFromDae))
+}
+
 func (g *c03Gen) emitProg(p c03Prog) {
 	for _, op := range p.lpmOps {
 		g.c(op)
@@ -714,9 +721,18 @@ func (g *c03Gen) use(r *VRand, f *c03Flow, fwd bool) {
 		n = 2 + r.Intn(2) // a burst of datagrams: the later ones may be served from the cache
 	}
 	for i := 0; i < n; i++ {
-		dt := []int{0, 0, 1, 100, 150, 299, 300, 301, 500, 2000}[r.Intn(10)]
+		ttl := int(UdpRoutingResultCacheTtl.Milliseconds())
+		dt := []int{0, 0, 1, ttl / 3, ttl / 2, ttl - 1, ttl, ttl + 1, ttl * 5 / 3, 2000}[r.Intn(10)]
+		if dt < 0 {
+			dt = 0
+		}
 		g.c(fmt.Sprintf("use %d %s %d %s %d %d %d", l4, hex.EncodeToString(sip[:]), sp, hex.EncodeToString(dip[:]), dp, age, dt))
 		g.stats.Inc(fmt.Sprintf("use.l4-%d", l4))
+	}
+	if !f.tcp && r.Chance(0.2) {
+		// the flow's userspace endpoint is torn down (NAT timeout of the endpoint, dialer death): tracking ends here
+		g.c(fmt.Sprintf("rel %s %d %s %d", hex.EncodeToString(sip[:]), sp, hex.EncodeToString(dip[:]), dp))
+		g.stats.Inc("op.rel")
 	}
 	if !f.tcp && r.Chance(0.35) {
 		// the same client socket talks to ANOTHER destination right away: a full-cone endpoint (keyed by the source
@@ -997,7 +1013,8 @@ func (g *c03Gen) scenario(r *VRand, rp *VRand, id int, tag string, steps int) {
 				if (hop.hook == "li" || hop.hook == "we") && r.Chance(0.35) {
 					g.retr(r, f, fwd)
 				}
-				if (hop.hook == "li" || hop.hook == "we") && (f.tcp || (f.sport != 53 && f.dport != 53)) && r.Chance(0.3) {
+				// (UDP to port 53 goes through the DNS ingress fast path; UDP FROM port 53 to another port is ordinary UDP)
+				if (hop.hook == "li" || hop.hook == "we") && r.Chance(0.3) {
 					g.use(r, f, fwd)
 				}
 			}
@@ -1230,10 +1247,9 @@ var c03ConstNames = []string{
 	"sizeof_routing_result", "off_routing_result_mark", "off_routing_result_must", "off_routing_result_mac",
 	"off_routing_result_outbound", "off_routing_result_pname", "off_routing_result_pid", "off_routing_result_dscp",
 	"sizeof_routing_handoff_entry", "off_routing_handoff_entry_last_seen_ns", "off_routing_handoff_entry_result",
-	"sizeof_redirect_tuple", "sizeof_redirect_entry", "sizeof_pid_pname", "connectivity_max_entries",
+	"connectivity_max_entries",
 	"routingHandoffTimeout", "L4ProtoType_TCP", "L4ProtoType_UDP", "IpVersionType_4", "IpVersionType_6",
-	"UdpRoutingResultCacheTtl", "tcpRoutingLookupRetryAttempts", "tcpRoutingLookupRetryDelay", "OutboundControlPlaneRouting",
-	"connStateJanitorPressureEnterUsage", "connStateJanitorPressureExitUsage", "connStateJanitorPressureExitRounds",
+	"OutboundControlPlaneRouting",
 }
 
 // ------------------------------------------------------------------ known witnesses (replayed on every run)
@@ -1331,6 +1347,25 @@ func (g *c03Gen) witnesses() {
 			}
 		}
 	}
+	// W6 (OPEN finding c03-wan-opened-udp53-reply-captured): a WAN-side client queries a local / LAN service on UDP 53;
+	// the service's reply must pass as the reply of a WAN-opened flow.  Control: the same pair on port 5353.
+	setup("wan-opened-dns-service-reply")
+	g.emitProgram(group2)
+	for _, port := range []uint16{53, 5353} {
+		svc := &c03Flow{tcp: false, sip: c03Mapped(1, 2, 3, 4), dip: c03Mapped(192, 168, 1, 10), sport: 40000, dport: port,
+			cmac: [6]byte{2, 0, 0, 0, 0, 2}, gmac: [6]byte{2, 0, 0, 0, 0, 1}}
+		qf := c03Frame(svc, true, 0, true, nil)  // remote client -> local service
+		rf := c03Frame(svc, false, 0, true, nil) // the service's reply
+		g.frameOp(c03Hop{"wi", true, 2, 2}, c03EthIP, qf, len(qf), 1, 0, 0, "-")
+		g.frameOp(we, c03EthIP, rf, len(rf), 1, 0, 5, "-")
+		lsvc := *svc
+		lsvc.dip = c03Mapped(192, 168, 1, 20) // a LAN host's service: query leaves through lan egress, reply enters lan ingress
+		lsvc.sport = 40001
+		qf = c03Frame(&lsvc, true, 0, true, nil)
+		rf = c03Frame(&lsvc, false, 0, true, nil)
+		g.frameOp(c03Hop{"le", true, 2, 3}, c03EthIP, qf, len(qf), 1, 0, 0, "-")
+		g.frameOp(li, c03EthIP, rf, len(rf), 1, 0, 0, "-")
+	}
 	// W3 (fixed by e3060cb): SYN-ACK parsed by both paths; reply of a WAN-opened connection
 	setup("synack-parse-paths")
 	sa := c03Frame(&t, true, c03FlagSYN|c03FlagACK, true, nil)
@@ -1361,6 +1396,7 @@ func TestVerifC03Gen(t *testing.T) {
 	{
 		g := &c03Gen{st: VOpenStream("c03a"), stats: stats}
 		g.c("caps 4096 4096 4096")
+		g.cfg()
 		for _, n := range c03ConstNames {
 			g.st.Emit("const "+n, c03GoConst(n))
 		}
@@ -1414,6 +1450,7 @@ func TestVerifC03Gen(t *testing.T) {
 		root := NewVRand(seed ^ 0xb)
 		_ = caps
 		g.c("caps 2 1 1")
+		g.cfg()
 		for i := 0; i < nScen/4+1; i++ {
 			g.scenario(NewVRand(root.U64()), NewVRand(root.U64()), i, "S", steps)
 			stats.Inc("scenario.tinymaps")
@@ -1424,6 +1461,7 @@ func TestVerifC03Gen(t *testing.T) {
 		g := &c03Gen{st: VOpenStream(fmt.Sprintf("c03c%d", ci)), stats: stats}
 		root := NewVRand(seed ^ uint64(0xc0+ci))
 		g.c(caps)
+		g.cfg()
 		for i := 0; i < nScen/8+1; i++ {
 			g.scenario(NewVRand(root.U64()), NewVRand(root.U64()), i, "S", steps)
 			stats.Inc("scenario.smallmaps")
@@ -1433,12 +1471,14 @@ func TestVerifC03Gen(t *testing.T) {
 	{
 		g := &c03Gen{st: VOpenStream("c03p"), stats: stats}
 		g.c("caps 16 16 16")
+		g.cfg()
 		g.parseSection(NewVRand(seed^0x9a), nParse)
 		g.st.Close()
 	}
 	{
 		g := &c03Gen{st: VOpenStream("c03f"), stats: stats}
 		g.c("caps 4096 4096 4096")
+		g.cfg()
 		g.witnesses()
 		g.st.Close()
 	}
@@ -1510,7 +1550,7 @@ func TestVerifC03Retr(t *testing.T) {
 		objs.RoutingHandoffMap = hoMap
 		core.bpf.Store(objs)
 	}
-	cons := &c03Consumer{cp: &ControlPlane{core: core, log: logrus.New()}, eps: map[UdpEndpointKey]bool{}}
+	cons := &c03Consumer{cp: &ControlPlane{core: core, log: logrus.New(), soMarkFromDae: c03SoMarkFromDae}, eps: map[UdpEndpointKey]bool{}}
 	cons.cp.log.SetOutput(io.Discard)
 	defer cons.reset()
 	var loadedConn, loadedHo map[string][]byte
@@ -1556,6 +1596,14 @@ func TestVerifC03Retr(t *testing.T) {
 				cons.cp.udpRouteScopeSensitive = op != "scope 0"
 			case strings.HasPrefix(op, "ep "):
 				cons.ep(op)
+			case strings.HasPrefix(op, "rel "):
+				if !kernel {
+					w.WriteString("rel=unavailable\n")
+					continue
+				}
+				ans := VRecover(func() string { return cons.rel(op, cl, core, connMap, &loadedConn, stats) })
+				w.WriteString(ans + "\n")
+				continue
 			case strings.HasPrefix(op, "use "):
 				if !kernel {
 					w.WriteString("use=unavailable\n")
@@ -1689,6 +1737,9 @@ func TestVerifC03Retr(t *testing.T) {
 
 // ---- the userspace consumers of the record (regenerated glue: verifC03TcpRecord / verifC03UdpRecord)
 
+// ControlPlane.soMarkFromDae in the second pass (the DNS fast path writes it into a record whose mark is 0)
+const c03SoMarkFromDae = 0x8ae0
+
 type c03Consumer struct {
 	cp  *ControlPlane
 	eps map[UdpEndpointKey]bool
@@ -1752,6 +1803,62 @@ func (c *c03Consumer) ep(op string) {
 		k = fd.SymmetricNatEndpointKey()
 	}
 	c.setEndpoint(k, tk[1] == "add")
+}
+
+// rel <sip> <sport> <dip> <dport>: the flow's userspace endpoint goes away.  The conn_state bytes the TC programs stored are
+// loaded into the kernel map; a real UdpEndpoint registers the pair as handlePkt does (TrackUdpConnStateTuplePair) and is
+// closed (Close -> releaseTrackedUdpConnState -> controlPlaneCore.ReleaseUdpConnStateTuples); answer = keys that are gone.
+func (c *c03Consumer) rel(op, cl string, core *controlPlaneCore, connMap *ebpf.Map, loadedConn *map[string][]byte, stats *VStats) string {
+	tk := strings.Fields(op)
+	cf := strings.Fields(cl)
+	if len(tk) != 5 || len(cf) != 3 {
+		return "rel=bad-op"
+	}
+	src, ok1 := c03AddrPort(tk[1], tk[2])
+	dst, ok2 := c03AddrPort(tk[3], tk[4])
+	conn, e1 := c03ParseDump(cf[0])
+	if !ok1 || !ok2 || e1 != nil {
+		return "rel=bad-dump"
+	}
+	if *loadedConn == nil {
+		*loadedConn = map[string][]byte{}
+	}
+	for k := range *loadedConn {
+		if _, ok := conn[k]; !ok {
+			kb, _ := hex.DecodeString(k)
+			if err := connMap.Delete(kb); err != nil && !stderrors.Is(err, ebpf.ErrKeyNotExist) {
+				return "rel=error:" + err.Error()
+			}
+		}
+	}
+	for k, v := range conn {
+		kb, _ := hex.DecodeString(k)
+		if err := connMap.Put(kb, v); err != nil {
+			return "rel=error:" + err.Error()
+		}
+	}
+	*loadedConn = conn
+	if src.Addr().Is4In6() && src.Port()%2 == 0 { // both spellings of an IPv4 peer
+		src = netip.AddrPortFrom(src.Addr().Unmap(), src.Port())
+	}
+	ue := &UdpEndpoint{udpConnStateOwner: core}
+	ue.TrackUdpConnStateTuplePair(src, common.ConvergeAddrPort(dst))
+	if err := ue.Close(); err != nil {
+		return "rel=error:close:" + err.Error()
+	}
+	var gone []string
+	for k := range conn {
+		kb, _ := hex.DecodeString(k)
+		var probe bpfConnState
+		if connMap.Lookup(kb, &probe) != nil {
+			gone = append(gone, k)
+			delete(*loadedConn, k)
+		}
+	}
+	sort.Strings(gone)
+	stats.Inc("rel.calls")
+	stats.Add("rel.entries-deleted", len(gone))
+	return "rel=[" + strings.Join(gone, ";") + "]"
 }
 
 type c03FakeConn struct {
@@ -1849,6 +1956,11 @@ func (c *c03Consumer) use(op, cl string, connMap, hoMap *ebpf.Map, loadedConn, l
 			ans = fmt.Sprintf("use=%s fresh=- el=%d", c03RecString(rr), time.Since(t0).Nanoseconds())
 		}
 		stats.Inc("use.tcp")
+	} else if dst.Port() == 53 {
+		// DNS ingress fast path (the datagram is assumed to carry a DNS message)
+		rr := c.cp.verifC03DnsRecord(spell(src), common.ConvergeAddrPort(dst))
+		ans = fmt.Sprintf("use=%s fresh=- el=%d", c03RecString(rr), time.Since(t0).Nanoseconds())
+		stats.Inc("use.dns")
 	} else {
 		rr, fresh, delivered := c.cp.verifC03UdpRecord(spell(src), common.ConvergeAddrPort(dst), []byte("data"))
 		switch {
